@@ -467,6 +467,9 @@ theorem type_str_eq_std (t : ExcType) : typeStr t = stdTypeStr t := by
       · subst h2; simp [typeStr, stdTypeStr, plainMods]
       · simp [typeStr, stdTypeStr, plainMods, h1, h2]
 
+/-- `_some_str` shows the exception's `str()`, and the traceback module's placeholder when `str()` raises -/
+theorem some_str_eq_std (v : Option Str) : someStr v = stdSafeStr v := by cases v <;> rfl
+
 /-- the module names the source tests `__module__` against (regenerated from the source on every run) are the ones
     the model uses -/
 theorem source_plain_modules_agree : Gen.plainModNames = plainMods := by decide
